@@ -260,6 +260,7 @@ func checkC10(r *core.Run) {
 	c10Special(r, p)
 	c10Snapshot(r, p)
 	sentBufferNotReused(r, p, "R-C10-snapshot", []string{"lib/utxo"}, 2)
+	noUseAfterFree(r, p, "R-C10-layout", "lib/utxo", 3)
 }
 
 func c10Layout(r *core.Run, p *core.Program) {
